@@ -329,6 +329,43 @@ func (st sqlStyle) stmt(s Stmt) string {
 	panic("stmt kind " + s.Kind)
 }
 
+// tableLevelPk rewrites a single-column inline PRIMARY KEY of every CREATE TABLE as a table-level PRIMARY KEY (col)
+// constraint: another spelling of the same schema.  Returns false when no table had one.
+func tableLevelPk(ss []Stmt) ([]Stmt, bool) {
+	out := append([]Stmt{}, ss...)
+	changed := false
+	for i, s := range out {
+		if s.Kind != "createTable" || len(s.Pk) > 0 {
+			continue
+		}
+		pkCol, n := -1, 0
+		for j, c := range s.Cols {
+			for _, o := range c.Opts {
+				if o.Kind == "pk" {
+					pkCol = j
+					n++
+				}
+			}
+		}
+		if n != 1 {
+			continue
+		}
+		cols := append([]ColDef{}, s.Cols...)
+		var opts []Opt
+		for _, o := range cols[pkCol].Opts {
+			if o.Kind != "pk" {
+				opts = append(opts, o)
+			}
+		}
+		cols[pkCol].Opts = opts
+		s.Cols = cols
+		s.Pk = []string{cols[pkCol].Name}
+		out[i] = s
+		changed = true
+	}
+	return out, changed
+}
+
 // scriptInlineKeys renders createIndex statements that directly follow their createTable as inline KEY / UNIQUE KEY
 // clauses of that CREATE TABLE (MySQL), the way a hand-written schema often declares them
 func (st sqlStyle) scriptInlineKeys(ss []Stmt) string {
